@@ -224,7 +224,7 @@ fn environments_part<V: Variant>(ctx: &mut Ctx, tier: Tier, keys: &[KeyCtx<V>]) 
         &format!("{} (key, message) cells: all sets of <= {} deviations from the default (ChaCha) environment at sampler iterations {:?}, each deviation one of {} forced answers (z0 in {{0,1,5,17,18}} x sign x comparison bytes accept-if-possible / reject-surely); every produced signature must verify (real verify AND reference Algorithm 16); the 0-deviation run is replayed and must repeat byte for byte", jobs.len(), bound, positions(V::N), MENU),
     );
     part.exhaustive = true;
-    if t.forced_served == 0 {
+    if t.forced_served == 0 && t.nviol == 0 {
         machinery_error("C01: no forced answer was consumed by the signer (vacuity guard)");
     }
     t.into_part(ctx, part);
